@@ -9,7 +9,8 @@ mkdir -p .work evidence replays lean/GB/Generated
 (cd extract/lockset && go build -o ../../.work/lockset .)
 ./.work/lockset -repo "${VERIF_REPO:-/repo}" -out lean/GB/Generated/Lockset.lean -json .work/lockset.json
 (cd extract/trans && go build -o ../../.work/trans .)
-./.work/trans -repo "${VERIF_REPO:-/repo}" -out lean/GB/Generated/Trans.lean -json .work/trans.json
+./.work/trans -repo "${VERIF_REPO:-/repo}" -out lean/GB/Generated/Trans.lean -json .work/trans.json \
+  || echo "setup: translator failed on this tree (./check of the properties with a TransTie module reports it)"
 (cd lean && lake build GB gbdriver)
 (cd harness && go build -tags verif -o ../.work/harness .)
 echo "setup ok"
